@@ -147,7 +147,15 @@ def load_known():
                         rest = rest.strip()
                         if rest.startswith('key='):
                             key = rest[4:].strip()
-                    known.append({'property': prop, 'key': key, 'desc': desc.strip()})
+                    # optional ``anchor=<function qualname>@@<source text>`` in front of the description:
+                    # the offending construct as it is written in the source
+                    anchor = None
+                    desc = desc.strip()
+                    if desc.startswith('anchor='):
+                        a, _, desc = desc[len('anchor='):].partition(' :: ')
+                        q, _, text = a.partition('@@')
+                        anchor = (q.strip(), text.strip())
+                    known.append({'property': prop, 'key': key, 'desc': desc.strip(), 'anchor': anchor})
                 elif line.startswith('fixed:'):
                     fixed.append(line)
     return known, fixed
@@ -192,6 +200,30 @@ def apply_known(ctx):
                 hits.append((k, o))
                 break
     return hits
+
+
+def lost_known(ctx, hits):
+    """listed known findings of this property that were NOT re-derived although the construct
+    they are anchored in is still in the source: the rule lost its discrimination (a repaired
+    tree, where the construct is gone, is not an error)"""
+    known, _ = load_known()
+    found = {id(k) for k, _ in hits}
+    keys_hit = {k['key'] for k, _ in hits}
+    out = []
+    for k in known:
+        if k['property'] != ctx.pid or k['key'] in keys_hit or not k.get('anchor'):
+            continue
+        q, text = k['anchor']
+        u = ctx.program.units.get(q)
+        if u is None:
+            continue
+        mod = u.module
+        lines = mod.source.split('\n')
+        seg = '\n'.join(lines[u.node.lineno - 1:(getattr(u.node, 'end_lineno', None) or u.node.lineno)])
+        if ' '.join(text.split()) in ' '.join(seg.split()):
+            out.append('known finding %s is listed and its construct `%s` is still in %s, but the rule no longer derives it'
+                       % (k['key'], text, q))
+    return out
 
 
 def _hash(s):
@@ -299,6 +331,7 @@ def main(argv=None):
             program = Program(TWINS[args.twin](program.sources))
         ctx, errors = run_rules(program, pid, args.tier)
         hits = apply_known(ctx)
+        errors += lost_known(ctx, hits)
         if args.tier == 'thorough':
             from .selftest import thorough_extra
             extra, more_errors = thorough_extra(program, pid, ctx)
